@@ -25,15 +25,23 @@ from . import slip77
 import hashlib, gc
 
 
-def _set_once(scope, name, value, length=None):
+def _set_once(scope, name, value, length=None, raw=False):
     """Sets a liquid-specific field of the scope, refuses duplicated fields and values of wrong length"""
     if getattr(scope, name) is not None:
         raise PSBTError("Duplicated field %s" % name)
     if length is not None:
         if len(value) != length:
             raise PSBTError("Field %s should be %d bytes long" % (name, length))
-        value = int.from_bytes(value, "little")
+        if not raw:
+            value = int.from_bytes(value, "little")
     setattr(scope, name, value)
+
+
+def _set_commitment(scope, name, value):
+    """Sets a confidential value commitment (33 bytes, prefix 08 or 09) - what a transaction can hold"""
+    if len(value) != 33 or value[0] not in (8, 9):
+        raise PSBTError("Field %s is not a value commitment" % name)
+    _set_once(scope, name, value, 33, raw=True)
 
 
 class LInputScope(InputScope):
@@ -194,17 +202,17 @@ class LInputScope(InputScope):
             elif k == b"\xfc\x04pset\x00":
                 _set_once(self, "issue_value", v, 8)
             elif k == b"\xfc\x04pset\x01":
-                _set_once(self, "issue_commitment", v)
+                _set_commitment(self, "issue_commitment", v)
             elif k == b"\xfc\x04pset\x0f":
                 _set_once(self, "issue_proof", v)
             elif k == b"\xfc\x04pset\x0a":
                 _set_once(self, "token_value", v, 8)
             elif k == b"\xfc\x04pset\x0b":
-                _set_once(self, "token_commitment", v)
+                _set_commitment(self, "token_commitment", v)
             elif k == b"\xfc\x04pset\x0c":
-                _set_once(self, "issue_nonce", v)
+                _set_once(self, "issue_nonce", v, 32, raw=True)
             elif k == b"\xfc\x04pset\x0d":
-                _set_once(self, "issue_entropy", v)
+                _set_once(self, "issue_entropy", v, 32, raw=True)
             elif k == b"\xfc\x04pset\x10":
                 _set_once(self, "token_proof", v)
             elif k in self.unknown:
